@@ -196,7 +196,19 @@ fn merkle_root(leaves: &[SymDigest]) -> SymDigest {
 pub fn lincode_root<S: Sch>(cfg: &Cfg, ligero: bool) -> Verdict
 where
     CommOf<S>: LinCommParts,
+    CkOf<S>: ark_serialize::CanonicalSerialize,
 {
+    lincode_root_code::<S>(cfg, if ligero { 1 } else { 0 })
+}
+
+/// code: 0 = shape and determinism only, 1 = Reed-Solomon on a 2-adic domain (Ligero), 2 = Brakedown's
+/// recursive code over the matrices in the committer key (`bdref`)
+pub fn lincode_root_code<S: Sch>(cfg: &Cfg, code: u8) -> Verdict
+where
+    CommOf<S>: LinCommParts,
+    CkOf<S>: ark_serialize::CanonicalSerialize,
+{
+    let ligero = code == 1;
     let w = match build::<S>(cfg) {
         Ok(w) => w,
         Err(v) => return v,
@@ -238,6 +250,34 @@ where
             let leaves: Vec<SymDigest> = cols.iter().map(|col| RoColHash::evaluate(&(), col.clone()).unwrap()).collect();
             if root != merkle_root(&leaves) {
                 return Verdict::viol("root", format!("polynomial {}: root differs from the reference Merkle root of the encoded matrix", i));
+            }
+        }
+        if code == 2 {
+            let p = match super::bdref::mirror(&w.ck) {
+                Ok(p) => p,
+                Err(e) => return Verdict::Discard(format!("driver: {}", e)),
+            };
+            if (n_rows, n_cols, n_ext) != (p.n, p.m, p.m_ext) {
+                return Verdict::viol("shape", format!("commitment metadata ({}, {}, {}) differs from the key's (n, m, m_ext) = ({}, {}, {})", n_rows, n_cols, n_ext, p.n, p.m, p.m_ext));
+            }
+            let mut flat = c.to_vec();
+            flat.resize(n_rows * n_cols, SF::zero());
+            let mut cols: Vec<Vec<SF>> = vec![vec![]; n_ext];
+            for r in 0..n_rows {
+                let cw = match super::bdref::encode_ref(&p, &flat[r * n_cols..(r + 1) * n_cols], 0) {
+                    Ok(cw) => cw,
+                    Err(e) => return Verdict::viol("code-structure", e),
+                };
+                if cw.len() != n_ext {
+                    return Verdict::viol("shape", format!("n_ext_cols = {} but the code length is {}", n_ext, cw.len()));
+                }
+                for (k, x) in cw.into_iter().enumerate() {
+                    cols[k].push(x);
+                }
+            }
+            let leaves: Vec<SymDigest> = cols.iter().map(|col| RoColHash::evaluate(&(), col.clone()).unwrap()).collect();
+            if root != merkle_root(&leaves) {
+                return Verdict::viol("root", format!("polynomial {}: root differs from the reference Merkle root of the Brakedown-encoded matrix", i));
             }
         }
     }
